@@ -12,6 +12,8 @@ Walks the Python `ast` only and emits DATA (no computation, no control flow) in 
   pauli_names      : list string;  pauli_marker, pauli_subst : emit
   pauli_marker_to_temp : bool     the Pauli phase marker is appended to `temp_resolved` (true) or to `qc_temp.gates` (false)
   str_basis_listified  : bool     the string-basis branch rebinds `basis = [basis]` (true) or leaves the string (false)
+  rot_normalised       : bool     the list branch reduces basis_1q to `[g for g in rot_norm_list if g in basis_1q]` before counting
+  rot_norm_list        : list string
 Any shape outside the recognised subset raises Broken("translator:<file>:<function>", detail).
 """
 import ast
@@ -395,7 +397,22 @@ def translate_resolve(path):
             "    else:\n        pass\n"
             "if len(basis_1q) == 1:\n    raise ValueError('Not sufficient single-qubit gates in basis')\n"
             "if len(basis_1q) == 0:\n    basis_1q = %s")
-        lb = st.body
+        lb = list(st.body)
+        rot_norm = None
+        if len(lb) == 6:
+            # optional normalisation: basis_1q = [g for g in ["RX", "RY", "RZ"] if g in basis_1q]
+            nz = lb[3]
+            ok = (isinstance(nz, ast.Assign) and ast.unparse(nz.targets[0]) == "basis_1q" and isinstance(nz.value, ast.ListComp)
+                  and len(nz.value.generators) == 1 and isinstance(nz.value.elt, ast.Name))
+            if ok:
+                gen = nz.value.generators[0]
+                v = nz.value.elt.id
+                ok = (isinstance(gen.target, ast.Name) and gen.target.id == v and not gen.is_async and len(gen.ifs) == 1
+                      and ast.unparse(gen.ifs[0]) == f"{v} in basis_1q")
+            if not ok:
+                raise Refuse("list-basis branch: unrecognised statement " + ast.unparse(nz)[:70])
+            rot_norm = str_list(gen.iter)
+            del lb[3]
         if len(lb) != 5 or not (isinstance(lb[4], ast.If) and len(lb[4].body) == 1 and isinstance(lb[4].body[0], ast.Assign)):
             raise Refuse("list-basis branch shape")
         d1_list = str_list(lb[4].body[0].value)
@@ -493,7 +510,7 @@ def translate_resolve(path):
             raise Refuse("return")
     except Refuse as r:
         raise Broken(where, str(r))
-    return dict(default_basis=default_basis, v1=v1, v2=v2, d1_list=d1_list, d1_str=d1_str, listified=listified,
+    return dict(default_basis=default_basis, v1=v1, v2=v2, d1_list=d1_list, d1_str=d1_str, listified=listified, rot_norm=rot_norm,
                 pauli_names=pauli_names, to_temp=to_temp, marker=marker, subst=subst, order=order, elim=elim)
 
 
@@ -525,12 +542,14 @@ def generate():
         out.append(f"Definition pauli_subst : emit := {r['subst']}.")
         out.append(f"Definition pauli_marker_to_temp : bool := {'true' if r['to_temp'] else 'false'}.")
         out.append(f"Definition str_basis_listified : bool := {'true' if r['listified'] else 'false'}.")
+        out.append(f"Definition rot_normalised : bool := {'true' if r['rot_norm'] is not None else 'false'}.")
+        out.append(f"Definition rot_norm_list : list string := {cstrs(r['rot_norm'] or [])}.")
     except Refuse as e:
         raise Broken("translator:emit", str(e))
     text = "\n".join(out) + "\n"
     write_if_changed(os.path.join(COQ, "Gen", "Decompose.v"), text)
     return dict(rules=sorted(defs), table=dict(table), passes={k: [n for n, _ in v] for k, v in passes.items()},
-                elim=[n for n, _ in r["elim"]], marker_to_temp=r["to_temp"], str_basis_listified=r["listified"],
+                elim=[n for n, _ in r["elim"]], marker_to_temp=r["to_temp"], str_basis_listified=r["listified"], rot_normalised=r["rot_norm"], order=r["order"],
                 n_emits=sum(t.count("EGate") + t.count("ESame") for t in defs.values()))
 
 
